@@ -345,8 +345,10 @@ func (e *event) asFeedEvent(collectionID uint32) *sgbucket.FeedEvent {
 		for k, v := range xattrMap {
 			xattrs = append(xattrs, sgbucket.Xattr{Name: k, Value: v})
 		}
-		feedEvent.Value = sgbucket.EncodeValueWithXattrs(e.value, xattrs...)
-		feedEvent.DataType |= sgbucket.FeedDataTypeXattr
+		if len(xattrs) > 0 {
+			feedEvent.Value = sgbucket.EncodeValueWithXattrs(e.value, xattrs...)
+			feedEvent.DataType |= sgbucket.FeedDataTypeXattr
+		}
 	}
 	return &feedEvent
 }
